@@ -3,6 +3,7 @@ package scn
 import (
 	"context"
 	"errors"
+	"fmt"
 
 	"github.com/aperturerobotics/util/memo"
 	"github.com/aperturerobotics/util/promise"
@@ -28,6 +29,7 @@ func onceBody(ncallers int, withCancel, ctxAware bool) func() {
 		bg := context.Background()
 		script := onceScripts[vsched.Choose(len(onceScripts))]
 		slow := vsched.Choose(2) == 1
+		wrapCancel := ctxAware && vsched.Choose(2) == 1
 		once := promise.NewOnce(func(ctx context.Context) (int, error) {
 			n := int(vsched.CtrAdd(c16Calls, 1))
 			if vsched.Ctr(c16Success) != 0 {
@@ -45,6 +47,10 @@ func onceBody(ncallers int, withCancel, ctxAware bool) func() {
 			vsched.CtrAdd(c16Active, -1)
 			if ctxAware && ctx.Err() != nil {
 				vsched.Observe(oExit, int64(n), 2, 0)
+				if wrapCancel {
+					// the function reports the abort in its own words (an error wrapping the context's error)
+					return 0, fmt.Errorf("fetch aborted: %w", context.Canceled)
+				}
 				return 0, context.Canceled
 			}
 			if ok {
@@ -136,8 +142,8 @@ func init() {
 	})
 	eng.Register(&eng.Scenario{
 		Name: "once-ctxaware", Props: []string{"C16"}, MustFinish: true, ObsNames: stdObs,
-		Doc:   "promise.Once: 2 callers + canceller, the function honours its context (returns Canceled when the starter's context is cancelled)",
-		Quick: eng.Bounds{PB: 2}, Thorough: eng.Bounds{PB: 3},
+		Doc:   "promise.Once: 2 callers + canceller, the function honours its context (returns Canceled, or an error of its own wrapping it, when the starter's context is cancelled)",
+		Quick: eng.Bounds{PB: 3, Delay: true}, Thorough: eng.Bounds{PB: 4, Delay: true},
 		Body: onceBody(2, true, true),
 	})
 	eng.Register(&eng.Scenario{
